@@ -112,6 +112,14 @@ type enc struct {
 	safeOrd  map[string]int
 	errs     []string
 	matchedCA map[*Clause]bool // call-site clauses that found their call site
+	inl       []*inlineFrame   // helpers being inlined (innermost last)
+	inlSeq    int
+	inlPrefix string
+	inlined   map[string]bool // helpers encoded in place (reported in evidence)
+	dbgDone   map[*ssa.Function]bool
+	noRename    bool
+	needContract []string // in-repo callees without a contract that cannot be encoded in place
+	renamedUsed map[string]string
 	inputs   []string // names of input constants (for model projection)
 	safetyProps []string
 	discover   bool
@@ -823,7 +831,7 @@ func (e *enc) edgeCond(from, to *ssa.BasicBlock) string {
 }
 
 func (e *enc) cellName(a *ssa.Alloc) string {
-	name := "cell." + symSafe(e.name) + "." + a.Name()
+	name := "cell." + symSafe(e.name) + "." + e.inlPrefix + a.Name()
 	e.regState(name, e.te.SortOf(a.Type().(*types.Pointer).Elem()))
 	return name
 }
